@@ -140,24 +140,23 @@ def get_attribute(ctx, obj, name):
             ctx.dropped.add('str.' + name)
 
             def fmt(ctx, *a, **k):
-                if name == 'join' and len(a) == 1 and (isinstance(a[0], (tuple, list)) or hasattr(a[0], 'sym_iterate')):
+                if name == 'join' and len(a) == 1 and (isinstance(a[0], (tuple, list)) or hasattr(a[0], 'sym_iterate') or hasattr(a[0], 'lazy_items')):
                     from .small import IdxStr
-                    items = ops.iterate(ctx, a[0])
+                    from .tokstr import TokStr
+                    items = ops.iterate(ctx, a[0])  # a generator argument is consumed (its element expressions are evaluated)
+                    if not items:
+                        return ''  # sep.join(()) == ''
                     if any(isinstance(x, Sym) and IdxStr.chars_of(x) is not None for x in items):
                         return IdxStr.join(ctx, obj, items)  # strings of symbolic characters: exact concatenation
+                    if any(isinstance(y, TokStr) for y in items):
+                        return TokStr.of(obj).m_join(ctx, items)  # token strings (pyvc/tokstr.py): exact concatenation
                     return SOpaque('str')
                 hook = getattr(ctx, 'format_hook', None)
                 if hook is not None and name == 'format':
                     return hook(obj, a, k)
                 for x in a:
-                    if hasattr(x, 'sym_iterate') or hasattr(x, 'lazy_items') or (name == 'join' and isinstance(x, (list, tuple))):
-                        xs = ops.iterate(ctx, x)  # a generator argument is consumed (its element expressions are evaluated)
-                        if name == 'join' and len(a) == 1:
-                            from .tokstr import TokStr
-                            if not xs:
-                                return ''  # sep.join(()) == ''
-                            if any(isinstance(y, TokStr) for y in xs):
-                                return TokStr.of(obj).m_join(ctx, xs)  # token strings (pyvc/tokstr.py): exact concatenation
+                    if hasattr(x, 'sym_iterate') or hasattr(x, 'lazy_items'):
+                        ops.iterate(ctx, x)  # a generator argument is consumed (its element expressions are evaluated)
                 return SOpaque('str')
             return fmt
         if name in ('lstrip', 'rstrip', 'strip', 'split', 'rsplit', 'partition', 'rpartition', 'startswith', 'endswith', 'upper', 'lower', 'isdigit', 'ljust', 'rjust'):
